@@ -60,6 +60,13 @@ CLAIMS = {
             "Bounds as C03. Outside: Cursor/read_sorted on vectors with deleted slots (known panic, DESIGN 7-3, not yet a registered harness), compressed formats, "
             "CachedVec, read-only clones, file-IO back-end.",
             "contract-mode read harnesses vs reference model", "5 C08"),
+    "C09": ("model_checking",
+            "Narrow: only the cached-wrapper reader is decided. CachedVec::materialize runs against a source whose published length grows exactly "
+            "between the reader's length snapshot and its cache store (the budget hook plays the writer): the snapshot is tagged with the length it was "
+            "collected for, so no reader ever observes a length whose elements are not readable.",
+            "NOT decided: the writer side (raw/compressed write(): data before region length before published length), point readers, read-only clones, "
+            "blocking; memory-ordering strength of SharedLen cannot be checked by Kani (sequentially consistent model).",
+            "interleaving at one hook point, concrete lengths", "5 C09"),
     "C10": ("model_checking",
             "Only the allocator half is decided: the Layout contracts that isolation across the lock-release windows of write_with rests on "
             "(reservations count in len() and is_last_anything, pending holes are never reused before a flush, promotion never merges across a live region).",
@@ -110,7 +117,6 @@ CLAIMS = {
 NOT_APPLICABLE = {
     "C04": "rollback step lemmas need the change-file directory model (std::fs read_dir / numeric file names) and the holes region; not built in the time available - no check, nothing claimed",
     "C07": "compressed write()/Pages harnesses not built (page capacity hook + codec stub needed); codec internals (Pco/LZ4/Zstd numeric loops, C FFI) are out of reach of Kani in any case",
-    "C09": "needs the pause-point interleaving harnesses for raw/compressed write(); not built; memory-ordering strength of SharedLen cannot be checked by Kani at all",
     "C14": "import_with / forced_import_with call create_region_if_needed and remove_region (allocator + name index with 7-byte names): contract mode cuts the allocator; not built",
     "C16": "only the cursor arithmetic of the change-record parser is decided (harness c17_change_cursor_bounds, listed under C17); the whole-record parser harness exhausts memory (symbolic-length collect), retention (save_change_file: numeric file names via string formatting) and rollback_before are not encodable within reach - nothing claimed",
     "C18": "kernel advisory-lock semantics (cross-process exclusion, release on last handle drop) are not encodable; the open-ordering half (try_lock before set_len) was designed but its harness is not built",
